@@ -175,14 +175,17 @@ Fixpoint pass (F : form) (l : list decl) (st : mst) : res (mst * list decl) :=
       else do x <- pass F r st;; Ok (fst x, d :: snd x)
     end
   end.
-(* `while True`: no progress -> ValueError, nothing left -> done *)
+(* `while True`: nothing left -> done (tested first since 13b42b8, so that inputs without any user type merge into
+   TypeSystem()), no progress -> ValueError *)
 Fixpoint rounds (F : form) (fuel : nat) (l : list decl) (st : mst) : res mst :=
   match fuel with
   | O => OutOfFuel
   | S k =>
     do x <- pass F l st;;
-    if Nat.eqb (List.length l) (List.length (snd x)) then Err EValue
-    else match snd x with [] => Ok (fst x) | _ => rounds F k (snd x) (fst x) end
+    match snd x with
+    | [] => Ok (fst x)
+    | _ => if Nat.eqb (List.length l) (List.length (snd x)) then Err EValue else rounds F k (snd x) (fst x)
+    end
   end.
 
 (* ------------------------------------------------------------------------------------------------ fix-up *)
